@@ -253,9 +253,10 @@ class Parser(AttrParser):
                 )
             self.forward_block_references.pop(name)
 
-        # Don't set name_hint for blocks that match the default pattern
-        if not Block.is_default_block_name(name):
-            block.name_hint = name  # setter verifies validity
+        # Don't set name_hint for blocks that match the default pattern, or that
+        # are not valid name hints (e.g. `^42`)
+        if Block.is_valid_name(name) and not Block.is_default_block_name(name):
+            block.name_hint = name
         # If it matches pattern "bb" followed by digits, leave name_hint as None
 
         self._parse_optional_block_arg_list(block)
@@ -947,8 +948,8 @@ class Parser(AttrParser):
         if name not in self.blocks:
             self.forward_block_references[name].append(block_token.span)
             block = Block()
-            if not Block.is_default_block_name(name):
-                block.name_hint = name  # setter verifies validity
+            if Block.is_valid_name(name) and not Block.is_default_block_name(name):
+                block.name_hint = name
             self.blocks[name] = (block, None)
         return self.blocks[name][0]
 
